@@ -1046,6 +1046,9 @@ def call_opaque_method(interp, o, name, m, args, kwargs):
             r = wrap(f(*(list(o._pv_index) + terms)))
             if isinstance(r, SInt) and m.returns.lo is not None:
                 st.assume(r.t >= m.returns.lo)
+            if m.may_raise and key is not None:
+                # the first outcome (here: a value) is the outcome of every later call with these arguments
+                o._pv_attrs[key] = r
         else:
             key = ('__call__', name, tuple(z3.simplify(to_z3(a)).sexpr() if isinstance(a, (Sym, int, str, bool))
                                             and not isinstance(a, (SOpt, SChoice, SList)) else id(a) for a in args))
@@ -1147,9 +1150,10 @@ class Module:
         self.models = {}
         self.checks = []       # extra obligation generators: (name, fn(ctx))
         # contracts of OTHER sidecar modules at call sites of this module's functions:
-        #   'apply' (default) use them; 'fit' only when the arguments have the shapes the contract is stated
-        #   for, otherwise the real body is interpreted; 'ignore' never (always interpret the body)
-        self.foreign_contracts = 'apply'
+        #   'imports' (default) use the contracts of the sidecar modules this module imports (it was written
+        #   against them) and interpret the real body otherwise; 'apply' use every contract; 'fit' only when
+        #   the arguments have the shapes the contract is stated for; 'ignore' never
+        self.foreign_contracts = 'imports'
         self.bounded_checks = []   # bounded stand-ins: (name, fn(ctx)) -- never counted as proved
         self.transparent = []
         self.assumptions = []
